@@ -47,6 +47,23 @@ def callbacks():
             CallableObject().method, math.tanh, torch.nn.Tanh(), torch.tanh, functools.partial(CallableObject())]
 
 
+_POOLS = []
+
+
+def real_pool():
+    from multiprocessing.pool import ThreadPool
+    if not _POOLS:
+        _POOLS.append(ThreadPool(1))
+    return _POOLS[0]
+
+
+def close_pools():
+    while _POOLS:
+        p = _POOLS.pop()
+        p.close()
+        p.join()
+
+
 def live_dtype(names):
     from nessai.livepoint import get_dtype
     return get_dtype(names)
@@ -213,7 +230,9 @@ def kwargs_tree(rng):
     cand = {
         "nlive": lambda: rng.choice([100, np.int64(2000), 50.0]),
         "seed": lambda: rng.choice([None, 1234, np.int32(7)]),
-        "pool": lambda: FakePool(),
+        # a stand-in pool, or a REAL pool object (which can neither be pickled nor deep-copied: the configuration writer has
+        # to cope with it as it is; seeded change C19-eB: copy.deepcopy(kwargs))
+        "pool": lambda: rng.choice([FakePool, real_pool])(),
         "n_pool": lambda: rng.choice([None, 4]),
         "checkpoint_callback": lambda: rng.choice(callbacks()),
         "flow_class": lambda: rng.choice([SomeFlow, "GWFlowProposal", None]),
